@@ -209,10 +209,14 @@ def _feed(h, x):
     if x is None:
         h.update(b"None")
     elif sps.issparse(x):
-        h.update(x.format.encode() + repr(x.shape).encode())
-        for part in ("data", "indices", "indptr", "row", "col", "offsets"):
-            if hasattr(x, part):
-                h.update(np.ascontiguousarray(getattr(x, part)).tobytes())
+        # canonical content (sorted triplets), not the storage layout: an in-place
+        # sort_indices() / format-preserving re-ordering is not a modification
+        c = sps.coo_matrix(x, copy=True)
+        c.sum_duplicates()
+        order = np.lexsort((c.col, c.row))
+        h.update(repr(c.shape).encode())
+        for part in (c.row[order], c.col[order], c.data[order]):
+            h.update(np.ascontiguousarray(part).tobytes())
     else:
         a = np.ascontiguousarray(np.asarray(x))
         h.update(str(a.dtype).encode() + repr(a.shape).encode() + a.tobytes())
